@@ -32,6 +32,7 @@ meta = {
     "confirmed_by_me": confirm[-1] if confirm else "",
     "what_i_ran": [f"tools/confirm_mutant.sh {wt} {x}  (patch applies, pinned suite 115 passing, demo fails with / passes without)"] + [f"tools/try_mutant.sh patch.diff {c}  (git apply to /repo, ./check {c} quick, git checkout -- .)" for c in latest],
     "results": list(latest.values()),
+    "all_runs_in_order": results,
     "caught_by": sorted(c for c, r in latest.items() if r["exit_code"] == 1),
 }
 json.dump(meta, open(f"{dst}/meta.json", "w"), indent=1)
